@@ -17,6 +17,12 @@ from hypothesis import strategies as st
 from vlib import strats as S
 from vlib import fixtures as F
 
+
+def _warm_up(L, factor):
+    from checks.c02 import warm_up
+
+    warm_up(L, factor)
+
 from pySDC.core.step import Step
 from pySDC.implementations.problem_classes.PenningTrap_3D import penningtrap
 from pySDC.implementations.sweeper_classes.boris_2nd_order import boris_2nd_order
@@ -133,6 +139,7 @@ def prop_boris(case, r):
     r.close(np.abs(ip - ep).max(), 1e-12 * sc * M, 'boris-integrate-pos')
     r.close(np.abs(iv - evl).max(), 1e-12 * sc * M, 'boris-integrate-vel')
 
+    _warm_up(L, case.get('warm'))
     sweep.update_nodes()
 
     Xn = np.zeros((M + 1, 3, N))
@@ -203,6 +210,7 @@ def boris_cases(draw, max_nodes=5):
     case['X'] = [[[pv[m][0][k][n] + (2.0 * n if k == 0 else 0.0) for n in range(N)] for k in range(3)] for m in range(M + 1)]
     case['V'] = [pv[m][1] for m in range(M + 1)]
     case['tau'] = [_pv(draw, N, 0.1) for _ in range(M)] if draw(st.booleans()) else None
+    case['warm'] = draw(st.sampled_from([None, None, 0.5, 3.0]))
     return case
 
 
@@ -435,6 +443,7 @@ def prop_dae(case, r):
     Fold = [None] + [P.dtype_f(L.f[m]) for m in range(1, M + 1)]
     u0 = P.dtype_u(L.u[0])
     r.nontrivial([case['sweeper'], case['problem'], case['QI'], M, round(np.log10(dt))])
+    _warm_up(L, case.get('warm'))
     sweep.update_nodes()
     worst = 0.0
     for m in range(1, M + 1):
@@ -480,4 +489,5 @@ def dae_cases(draw):
     return {
         'sweeper': sw, 'problem': prob, 'num_nodes': M, 'QI': draw(st.sampled_from(['IE', 'LU', 'MIN-SR-S', 'IEpar'])), 'dt': draw(S.log_uniform(-3, -1)),
         't0': lo + (hi - lo) * draw(st.integers(0, 8)) / 10.0 if prob != 'Pendulum2D' else 0.0, 'eps': draw(st.sampled_from([0.0, 1e-3, 1e-2])), 'pert': [[draw(S.small_float()) for _ in range(16)] for _ in range(M)],
+        'warm': draw(st.sampled_from([None, 0.5, 2.0])),
     }  # fmt: skip
